@@ -111,6 +111,33 @@ def nonce(ctx):
                             'deterministic RFC6979 nonce is no longer the default with fastecdsa', e.node)
 
 
+@PROP.obligation('C13.explicit-nonce', canaries=[
+    mut.replace_expr('keys', 'Signature.create', 'not k', 'not k or not use_rfc6979', 'explicit nonce replaced by a random one when RFC6979 is switched off', nth=0),
+])
+def explicit_nonce(ctx):
+    """An explicit nonce is used as given in every mode: on the control-flow graph of Signature.create no assignment to k is reachable
+    on a path where the caller's k is set (the false edge of the `not k` test) - use_rfc6979 only chooses HOW a missing nonce is made."""
+    from ..cfg import build_cfg
+    q = 'keys:Signature.create'
+    fn = ctx.repo.func(q)
+    g = build_cfg(fn)
+    asg = [n.id for n in g.nodes if n.kind == 'stmt' and isinstance(n.ast, (ast.Assign, ast.AugAssign)) and any(
+        isinstance(x, ast.Name) and x.id == 'k' and isinstance(x.ctx, ast.Store) for x in ast.walk(n.ast))]
+    tests = [n for n in g.nodes if n.kind == 'test' and n.ast is not None and norm(n.ast) in ('not k', 'k is None', 'k', 'k is not None')]
+    if not asg or not tests:
+        ctx.undecided('Signature.create: nonce generation (assignments to k under a test of k) not found')
+    off = set()
+    for t_ in tests:
+        given_edge = g.false_edge(t_.id) if norm(t_.ast) in ('not k', 'k is None') else g.true_edge(t_.id)
+        missing_edge = g.true_edge(t_.id) if norm(t_.ast) in ('not k', 'k is None') else g.false_edge(t_.id)
+        off |= set(missing_edge)
+    ctx.saw('Signature.create: %d assignment(s) to k, %d test(s) of k' % (len(asg), len(tests)))
+    p = g.path_avoiding(asg, [], blocked_edges=off, skip_exc=True)
+    if p is not None:
+        ctx.violate(q, 'with an explicit k there is a path to `%s` (%s)' % (norm(g[p[-1]].ast)[:60], g.describe_path(p)[-60:]), g[p[-1]].ast,
+                    'sign(z, key, use_rfc6979=False, k=K) signs with a random nonce: r is not x(K*G) mod n and two identical calls give different signatures')
+
+
 def _cond_leaves(t):
     if isinstance(t, tuple) and t and t[0] == 'cond':
         return _cond_leaves(t[2]) + [x for x in _cond_leaves(t[3]) if x not in _cond_leaves(t[2])]
